@@ -7,7 +7,10 @@ CONSTANTS
   MaxItems = 7
   MaxPostErr = 2
   Mode = "intended"
+  Cap = 2
+  BufMode = "fresh"
+  RingSize = 1
 VIEW view
-INVARIANTS TypeOK StreamFidelity HeartbeatsNeverSurface ErrorAfterItsData NoSpuriousError PendingMeansEmpty DeferredErrorHasData
+INVARIANTS TypeOK StreamFidelity HeartbeatsNeverSurface ReceiveBufferUnreferenced QueueBounded HeldMeansFull ErrorAfterItsData NoSpuriousError PendingMeansEmpty DeferredErrorHasData
 PROPERTIES ErrorSticky
 CHECK_DEADLOCK FALSE
